@@ -113,7 +113,7 @@ Proof.
       rewrite <- E. rewrite <- Qsum_map_scale. apply Qsum_map_ext. intro r.
       cbn [ind]. rewrite lookupb_cons_eq, ind_cons_notin by exact NI. ring. }
     cbn [all_envs flat_map]. rewrite app_nil_r, map_app, !map_map, Qsum_app.
-    rewrite (H false), (H true). cbn [rstar map].
+    rewrite (H false), (H true). unfold rstar. cbn [map].
     destruct (v a); cbn [Bool.eqb]; ring.
 Qed.
 
